@@ -8,7 +8,7 @@ miss = json.load(open(os.path.join(HERE, "seeded", "misses.json")))
 ev = {os.path.basename(k.rstrip("/")): v for k, v in json.load(open(os.path.join(HERE, "seeded", "eval-latest.json"))).items()}
 names = sorted(desc, key=lambda n: (n.split("-")[0], "self" in n, int(n.split("-")[-1])))
 missed_first = {}
-for rnd in ("round1", "round2", "round3", "round4", "round5", "round6", "round7"):
+for rnd in ("round1", "round2", "round3", "round4", "round5", "round6", "round7", "round8"):
     for n, (why, what) in miss[rnd].items():
         missed_first[n] = (rnd, why, what)
 nself = sum(1 for n in names if "self" in n)
@@ -18,7 +18,7 @@ out = []
 out.append("## 13  Seeded changes: which checks catch which changes\n")
 out.append("`seeded/<ID>-k/` holds %d changes to cvxopt/cvxopt, each of which builds, passes the repository's 36 tests and breaks\n"
            "the named property for a class of inputs.  %d were written by fresh sub-agents that saw only the property text and a\n"
-           "scratch worktree (`<ID>-1` .. `<ID>-14`, seven rounds; from the second round on the agents were also told which changes\n"
+           "scratch worktree (`<ID>-1` .. `<ID>-16`, eight rounds; from the second round on the agents were also told which changes\n"
            "already existed, and in rounds 4 to 6 which *kinds* of change to prefer: shortcuts and caches valid for a subset of\n"
            "inputs, merged branches, aliasing, error paths, argument-type handling, feature interplay, extreme but valid inputs,\n"
            "and finally changes with a deliberately narrow trigger; round 7 asked for changes that need a multi-step sequence, a failure at a\n"
@@ -26,8 +26,9 @@ out.append("`seeded/<ID>-k/` holds %d changes to cvxopt/cvxopt, each of which bu
            "%d are mine (`<ID>-self-k`).  Every one was confirmed by `tools/seedverify.py` in a scratch worktree (demo passes on HEAD,\n"
            "fails on the changed tree, suite 36/36) before it was kept; none was ever committed to /repo.  `tools/seedeval.py` applies\n"
            "a patch in a scratch worktree and runs the named checks with `VERIF_REPO` pointing at it; `seeded/eval-latest.json` is its\n"
-           "output for all changes on the final tree (quick tier, seed 0); the 40 rows of round 7 (`-13`, `-14`) were evaluated one by one\n"
-           "during the last session, each after the extension it prompted, and not re-run together at the end.\n" % (len(names), len(names) - nself, nself))
+           "output for all changes on the final tree (quick tier, seed 0); 226 of the rows come from a re-evaluation of\n"
+           "the whole collection on the final tree (stopped for lack of time), the others from evaluations made earlier in the last session\n"
+           "(`seeded/eval-latest-source.json` says which).\n" % (len(names), len(names) - nself, nself))
 out.append("**%d of the %d changes are reported by the quick tier of the check of their property** (exit 1 with a VIOLATION line).\n"
            "The other %d (%s) are discussed at the end of this section.  %d changes (marked `*`)\n"
            "were *missed* when first evaluated.  That was the point of the exercise: each miss named an input class or an observation\n"
@@ -37,17 +38,24 @@ out.append("| round | changes | missed at first |\n|---|---|---|")
 per = {"round1": "C01-C10, C17-C19: -1, -2 (26)", "round2": "C11-C16, C20: -1..-4; C01-C10, C17-C19: -3, -4 (54)",
        "round3": "all properties: -5, -6 (40)", "round4": "all properties: -7, -8 (40)", "round5": "all properties: -9, -10 (40)",
        "round6": "all properties: -11, -12, narrow triggers (40)",
-       "round7": "all properties: -13, -14, multi-step / fault / interleaving / unusual-input triggers (40)"}
-for rnd in ("round1", "round2", "round3", "round4", "round5", "round6", "round7"):
+       "round7": "all properties: -13, -14, multi-step / fault / interleaving / unusual-input triggers (40)",
+       "round8": "all properties: -15, -16, same brief, code regions not touched before (40)"}
+for rnd in ("round1", "round2", "round3", "round4", "round5", "round6", "round7", "round8"):
     out.append("| %s | %s | %s |" % (rnd[-1], per[rnd], ", ".join(sorted(miss[rnd]))))
 out.append("")
 out.append("What each miss showed and what was changed:\n")
-for rnd in ("round1", "round2", "round3", "round4", "round5", "round6", "round7"):
+for rnd in ("round1", "round2", "round3", "round4", "round5", "round6", "round7", "round8"):
     for n in sorted(miss[rnd]):
         why, what = miss[rnd][n]
         out.append("* **%s** (%s).  Missing: %s.  Now: %s." % (n, desc.get(n, "?"), why, what))
 for n, why in sorted(miss.get("caught_by_another_check", {}).items()):
     out.append("* **%s** (%s): %s." % (n, desc.get(n, "?"), why))
+for n, why in sorted(miss.get("regressed_at_seed_0", {}).items()):
+    out.append("* **%s** (%s): %s." % (n, desc.get(n, "?"), why))
+for n, why in sorted(miss.get("round8_caught_by_another_check", {}).items()):
+    out.append("* **%s** (%s): %s." % (n, desc.get(n, "?"), why))
+for n, why in sorted(miss.get("round8_still_missed", {}).items()):
+    out.append("* **%s** (%s): NOT reported by any check at the end of the session - %s." % (n, desc.get(n, "?"), why))
 for n, why in sorted(miss.get("round7_still_missed", {}).items()):
     out.append("* **%s** (%s): NOT reported by any check at the end of the session - %s." % (n, desc.get(n, "?"), why))
 for n, why in sorted(miss.get("quick_misses_thorough_catches", {}).items()):
